@@ -50,12 +50,22 @@ var c19Ledger *ledger
 // attribute a filter derived from a request header, and the selected route.
 func c19Build(cfg c19Cfg) *restful.Container {
 	c := restful.NewContainer()
+	// the router is always set twice: the other one first (what it leaves behind must not matter)
 	if cfg.JSR {
+		c.Router(restful.CurlyRouter{})
 		c.Router(restful.RouterJSR311{})
+	} else {
+		c.Router(restful.RouterJSR311{})
+		c.Router(restful.CurlyRouter{})
 	}
-	// every configuration: a container filter that turns a request header into an attribute
+	// every configuration: a container filter that turns request headers into attributes - one
+	// always, one only when its header is present - and reports the optional one back
 	c.Filter(func(req *restful.Request, resp *restful.Response, chain *restful.FilterChain) {
 		pt("filter.enter")
+		if v := req.Request.Header.Get("X-Opt"); v != "" {
+			req.SetAttribute("opt", v)
+		}
+		resp.Header().Set("X-Opt-Seen", fmt.Sprint(req.Attribute("opt")))
 		req.SetAttribute("who", req.Request.Header.Get("X-Who"))
 		chain.ProcessFilter(req, resp)
 		pt("filter.exit")
@@ -170,7 +180,7 @@ func c19Q() []h.Req {
 		{Method: "GET", Segs: []string{"api", "item", "1"}, Hdr: [][2]string{{"X-Who", "alice"}, {"Accept-Encoding", "gzip"}}},
 		{Method: "GET", Segs: []string{"api", "item", "2"}, Hdr: [][2]string{{"X-Who", "bob"}, {"Accept-Encoding", "deflate"}}},
 		{Method: "POST", Segs: []string{"api", "item"}, Hdr: [][2]string{{"Content-Type", "application/json"}, {"X-Who", "poster"}}, Body: `{"A":"entity-value"}`},
-		{Method: "GET", Segs: []string{"api", "nope"}, Hdr: [][2]string{{"X-Who", "nobody"}}},
+		{Method: "GET", Segs: []string{"api", "nope"}, Hdr: [][2]string{{"X-Who", "nobody"}, {"X-Opt", "only-this-request"}}},
 		{Method: "DELETE", Segs: []string{"api", "item", "1"}, Hdr: [][2]string{{"X-Who", "deleter"}}},
 		{Method: "OPTIONS", Segs: []string{"api", "item", "1"}, Hdr: [][2]string{{"Origin", corsE1}, {"Access-Control-Request-Method", "GET"}, {"Access-Control-Request-Headers", "X-A"}}},
 		{Method: "GET", Segs: []string{"api", "nest", "9"}, Hdr: [][2]string{{"X-Who", "carol"}}},
